@@ -63,6 +63,21 @@ func (c *ctx) clientFacts() {
 		c.add("Client", "lit_tags_"+st, lt, c.structTags(requestGo, st), requestGo+":"+st, "json tags")
 	}
 	c.add("Client", "lit_tags_JWK", lt, c.structTags("pkg/jws/jwk.go", "JWK"), "pkg/jws/jwk.go:JWK", "json tags")
+	// the canonicalizer: the transformer is one function made of closures; its whole text is the fact
+	c.add("Jcs", "skel_jcs_Transform", lt, c.skel("pkg/internal/jsoncanonicalizer/jsoncanonicalizer.go", "Transform"), "pkg/internal/jsoncanonicalizer/jsoncanonicalizer.go:Transform", "statements (closures verbatim)")
+	c.add("Jcs", "skel_jcs_NumberToJSON", lt, c.skel("pkg/internal/jsoncanonicalizer/es6numfmt.go", "NumberToJSON"), "pkg/internal/jsoncanonicalizer/es6numfmt.go:NumberToJSON", "control skeleton")
+	c.add("Jcs", "skel_jcs_MarshalCanonical", lt, c.skel("pkg/canonicalizer/canonicalizer.go", "MarshalCanonical"), "pkg/canonicalizer/canonicalizer.go:MarshalCanonical", "control skeleton")
+	for _, f := range []string{"ComputeMultihash", "GetMultihash", "GetMultihashCode", "IsSupportedMultihash", "IsComputedUsingMultihashAlgorithms", "CalculateModelMultihash", "IsValidModelMultihash", "GetHashFromMultihash", "GetHash"} {
+		c.add("Jcs", "skel_hashing_"+f, lt, c.skel("pkg/hashing/hash.go", f), "pkg/hashing/hash.go:"+f, "control skeleton")
+	}
+	for _, f := range []string{"GetRevealValue", "GetCommitment", "GetCommitmentFromRevealValue"} {
+		c.add("Jcs", "skel_commitment_"+f, lt, c.skel("pkg/commitment/hash.go", f), "pkg/commitment/hash.go:"+f, "control skeleton")
+	}
+	for _, f := range []string{"PatchesFromDocument", "NewReplacePatch", "NewJSONPatch", "NewAddPublicKeysPatch", "NewRemovePublicKeysPatch", "NewAddServiceEndpointsPatch",
+		"NewRemoveServiceEndpointsPatch", "NewAddAlsoKnownAs", "NewRemoveAlsoKnownAs", "GetValue", "GetAction", "Bytes", "JSONLdObject", "FromBytes", "stringEntry",
+		"validateReplaceDocument", "contains", "validateDocument", "getPublicKeys", "getServices", "getStringArray", "getGenericArray", "sortedKeys"} {
+		c.add("PatchPkg", "skel_patch_"+f, lt, c.skel("pkg/patch/patch.go", f), "pkg/patch/patch.go:"+f, "control skeleton")
+	}
 	c.add("Client", "lit_tags_rawDoc", lt, c.structTags(stDocGo, "rawDoc"), stDocGo+":rawDoc", "json tags")
 }
 
